@@ -505,7 +505,10 @@ def gen_cases(tier: str, seed: int) -> List[Dict]:
                 for g, r in [(False, False), (True, False), (False, True), (True, True)]:
                     cfgs.append({"start": start, "stop": stop, "dimensions": dims, "cross_truncation": ct, "graded": g, "reverse": r, "via": "glexindex"})
     rng.shuffle(cfgs)
-    take = cfgs[: 120 if quick else len(cfgs)]
+    # points that lie exactly on a norm-2 / norm-1 sphere (float rounding inside the norm must not drop them): 3-4 dimensions, stop 6
+    sphere = [{"start": 0, "stop": 6, "dimensions": d, "cross_truncation": ct, "graded": g, "reverse": r, "via": "glexindex"}
+              for ct in (2, 1, 0.5) for d in (4, 3) for g, r in ((True, False), (False, True))]
+    take = sphere[: (6 if quick else len(sphere))] + cfgs[: 120 if quick else len(cfgs)]
     for i, cfg in enumerate(take):
         if i % 7 == 0:
             cfg = dict(cfg, via="bindex")
